@@ -170,7 +170,7 @@ PROPS = {
     },
     "C09": {
         "propfile": "PropC09.v",
-        "n": {"quick": 400, "thorough": 10000},
+        "n": {"quick": 1200, "thorough": 12000},
         "corr": "policy.PolicyVerifier.VerifyRefFull / VerifyRef / VerifyRefFromEntry vs verify_full / verify_latest / verify_from (World.v); "
                 "VerifyRef on histories with code-review approval attestations vs Reviews.verify_latest_r, and accepted => justified by approvals "
                 "that are exactly about the change (Reviews.latest_justified)",
@@ -269,7 +269,7 @@ PROPS = {
     },
     "C10": {
         "propfile": "PropC10.v",
-        "n": {"quick": 30, "thorough": 600},
+        "n": {"quick": 30, "thorough": 300},
         "corr": "pkg/gitinterface GetFilePathsChangedByCommit / GetAllFilesInTree / GetEntriesInTree / TreeBuilder.WriteTreeFromEntries on real "
                 "repositories (git binary) vs the trees as written, raw `git ls-tree -z` output vs GitFormat.print_lstree_z, GitFormat.parse_lstree_z "
                 "on that raw output vs what gitinterface returned; VerifyRefFull (path and commit enumeration through the real gitinterface) vs "
@@ -292,7 +292,7 @@ PROPS = {
     },
     "C18": {
         "propfile": "PropC18.v",
-        "n": {"quick": 30, "thorough": 800},
+        "n": {"quick": 30, "thorough": 300},
         "corr": "internal/propagation.PropagateChangesFromUpstreamRepository on pairs of real repositories, repeated 1-3 times, vs "
                 "Propagate.repeat_propagate: error/ok, the downstream tree (read with `git ls-tree -r -z`, parsed by the harness), commits made, "
                 "propagation entries (ref, tree of the commit named, upstream location, upstream entry); and, on the implementation's answers, the "
@@ -313,7 +313,7 @@ PROPS = {
     },
     "C15": {
         "propfile": "PropC15.v",
-        "n": {"quick": 24, "thorough": 500},
+        "n": {"quick": 24, "thorough": 200},
         "corr": "experimental/gittuf ReconcileLocalRSLWithRemote and sync on pairs of real repositories (local with remote 'origin') vs "
                 "Reconcile.reconcile / Reconcile.sync: error kind, the local log afterwards (independent walker; annotations as positions), local "
                 "and remote refs, the remote log, the diverged-refs list; and, on the implementation's answers, the clauses of the property",
